@@ -6,6 +6,16 @@ from core import Corr, Violation, run_driver
 from extract import pyexpr
 
 ID = "C11"
+#: functions the hand-written model transcribes: their control skeleton (extract/shape.py) is regenerated into
+#: Gen/C11.lean and compared with the literal in Properties/C11.lean (`modelled_functions_have_the_transcribed_shape`)
+SHAPES = [
+    ("shapeTransformIall", "mlinsights/mlmodel/_extended_features_polynomial.py", "_transform_iall"),
+    ("shapeTransformIonly", "mlinsights/mlmodel/_extended_features_polynomial.py", "_transform_ionly"),
+    ("shapeCombinationsPoly", "mlinsights/mlmodel/_extended_features_polynomial.py", "_combinations_poly"),
+    ("shapeFitPoly", "mlinsights/mlmodel/extended_features.py", "ExtendedFeatures._fit_poly"),
+    ("shapeTransformPoly", "mlinsights/mlmodel/extended_features.py", "ExtendedFeatures._transform_poly"),
+    ("shapeFeatureNamesPoly", "mlinsights/mlmodel/extended_features.py", "ExtendedFeatures._get_feature_names_poly"),
+]
 SRC_POLY = "mlinsights/mlmodel/_extended_features_polynomial.py"
 SRC_EXT = "mlinsights/mlmodel/extended_features.py"
 LEAN_TARGETS = ["MlVerif.Gen.C11", "MlVerif.Model.Poly", "MlVerif.Model.Itertools", "MlVerif.Lemmas.Poly",
@@ -393,6 +403,37 @@ def _slow_defs(tree):
     return D
 
 
+def _slow_fill_defs(tree):
+    """`ExtendedFeatures._transform_poly_slow`: the output is allocated with one row per input row and filled by ONE
+    loop over the enumerated combinations whose only statement writes the WHOLE column (`XP[:, i] = X[:, comb].prod(1)`).
+    Anything else (row blocks, masks, extra statements in the loop) is not classified."""
+    D = _Defs()
+    fn = pyexpr.find_function(tree, "ExtendedFeatures._transform_poly_slow")
+    why = None
+    body = [st for st in fn.body if not (isinstance(st, ast.Expr) and isinstance(st.value, ast.Constant))]
+    loops = [st for st in body if isinstance(st, (ast.For, ast.While))]
+    nested = [n for st in body for n in ast.walk(st) if isinstance(n, (ast.For, ast.While, ast.ListComp, ast.GeneratorExp))]
+    alloc = _single_assign(fn, "XP")
+    if len(loops) != 1 or len(nested) != 1 or not isinstance(loops[0], ast.For):
+        why = "not exactly one loop"
+    else:
+        lp = loops[0]
+        if ast.unparse(lp.target) != "(i, comb)" or ast.unparse(lp.iter) != "enumerate(comb)" or lp.orelse:
+            why = "loop header is not `for i, comb in enumerate(comb)`"
+        elif len(lp.body) != 1 or ast.unparse(lp.body[0]) != "XP[:, i] = X[:, comb].prod(1)":
+            why = "loop body is not the single whole-column statement: " + "; ".join(ast.unparse(b) for b in lp.body)[:80]
+        elif body.index(lp) != len(body) - 2 or ast.unparse(body[-1]) != "return XP":
+            why = "statements between the loop and `return XP`"
+        elif alloc is None or not ast.unparse(alloc).startswith("numpy.empty((X.shape[0], self.n_output_features_)"):
+            why = "XP is not allocated as numpy.empty((X.shape[0], self.n_output_features_), ...)"
+        elif ast.unparse(_single_assign(fn, "comb") or ast.Constant(0)) != \
+                "_combinations_poly(X.shape[1], self.poly_degree, self.poly_interaction_only, include_bias=self.poly_include_bias)":
+            why = "comb is not _combinations_poly(X.shape[1], degree, interaction_only, include_bias=include_bias)"
+    D.items.append(("wholeColumns", "Bool", "true" if why is None else _unk_bool(why),
+                    "for i, comb in enumerate(comb): XP[:, i] = X[:, comb].prod(1)"))
+    return D
+
+
 def extract(ctx):
     t1 = ast.parse(ctx.source(SRC_POLY))
     t2 = ast.parse(ctx.source(SRC_EXT))
@@ -402,7 +443,7 @@ def extract(ctx):
     body = (pyexpr.HEADER + "import MlVerif.Gen.Base\nset_option linter.unusedVariables false\n"
             "namespace MlVerif.Gen.C11\nopen MlVerif.Gen\n\n" + ENV + "\n"
             + iall.text("Iall") + "\n" + ionly.text("Ionly") + "\n" + names.text("Names") + "\n"
-            + _slow_defs(t1).text("Slow")
+            + _slow_defs(t1).text("Slow") + _slow_fill_defs(t2).text("SlowFill")
             + "\nend MlVerif.Gen.C11\n")
     return {"MlVerif/Gen/C11.lean": body}
 
@@ -633,9 +674,9 @@ def _check_config(n, degree, io, bias, X, flag="bool"):
                         [int(ext.n_output_features_), list(out.shape)], list(ref.shape)))
             continue
         if not (out.astype(float) == ref.astype(float)).all():   # inputs are exact: products are exact
-            j = int(numpy.argwhere(out.astype(float) != ref.astype(float))[0][1])
-            bad.append((site + ".transform:column-differs", "column %d differs from PolynomialFeatures" % j,
-                        out[:, j].tolist(), ref[:, j].tolist()))
+            r, j = (int(v) for v in numpy.argwhere(out.astype(float) != ref.astype(float))[0])
+            bad.append((site + ".transform:column-differs", "column %d differs from PolynomialFeatures (first at row %d of %d)"
+                        % (j, r, X.shape[0]), out[r:r + 8, j].tolist(), ref[r:r + 8, j].tolist()))
         feats = ["x%d" % i for i in range(n)]
         try:
             names = list(ext.get_feature_names_out())
@@ -700,10 +741,33 @@ def _matrix(rng, n, rows, kind):
     return numpy.array([[rng.randint(-6, 6) / 2.0 for _ in range(n)] for _ in range(rows)], dtype=float)
 
 
+#: row counts around the block sizes a vectorised implementation would use ("all input matrices" includes tall ones)
+TALL_ROWS = (255, 257, 1023, 1025, 2047, 2049, 4095, 4097, 8191, 8193, 10000, 16385)
+
+
+def _tall(rows, n, kind):
+    """deterministic exact matrix with `rows` rows (not stored in replays: rebuilt from (rows, n, kind))"""
+    import numpy
+    r = numpy.arange(rows).reshape(-1, 1)
+    j = numpy.arange(n).reshape(1, -1)
+    X = ((r * 7 + j * 3 + (r // 5)) % 7) - 3
+    return X.astype(numpy.int64) if kind == "int" else X.astype(float) / 2.0
+
+
 def search(ctx, hints):
     ctx.shadow(need_cython=True)
     rng = ctx.rng
     vs, evals, nontriv, samples = [], 0, set(), []
+    for t, rows in enumerate(TALL_ROWS if ctx.thorough else TALL_ROWS[1::2]):
+        n, degree = (2, 2) if t % 2 else (3, 3)
+        for io, bias in ((False, True), (True, False)):
+            kind = ("int", "float")[(t + io) % 2]
+            bad = _check_config(n, degree, io, bias, _tall(rows, n, kind), "bool")
+            evals += 1
+            nontriv.add(("tall", rows, n, degree, io, bias, kind))
+            for key, what, obs, req in bad:
+                vs.append(Violation(key, what, {"n": n, "degree": degree, "interaction_only": io, "flag": "bool",
+                                                "include_bias": bias, "X": [], "tall_rows": rows, "dtype": kind}, obs, req))
     todo = []
     # the configurations on which the correspondence disagreed come first
     for h in hints or []:
@@ -749,7 +813,7 @@ def search(ctx, hints):
                                 obs, req))
     best = {}
     for v in vs:
-        size = (v.input["n"] + v.input["degree"], len(v.input["X"]))
+        size = (v.input["n"] + v.input["degree"], v.input.get("tall_rows") or len(v.input["X"]))
         if v.key not in best or size < best[v.key][0]:
             best[v.key] = (size, v)
     return [v for _, v in best.values()], {"evaluations": evals, "distinct_nontrivial": len(nontriv),
@@ -760,8 +824,11 @@ def replay(ctx, item):
     ctx.shadow(need_cython=True)
     import numpy
     inp = item["input"]
-    X = numpy.array(inp["X"], dtype=numpy.int64 if inp.get("dtype") == "int" else float)
-    X = X.reshape(len(inp["X"]), inp["n"])
+    if inp.get("tall_rows"):
+        X = _tall(inp["tall_rows"], inp["n"], inp.get("dtype", "int"))
+    else:
+        X = numpy.array(inp["X"], dtype=numpy.int64 if inp.get("dtype") == "int" else float)
+        X = X.reshape(len(inp["X"]), inp["n"])
     if "refit_from" in inp:
         bad = _check_refit(inp["n"], inp["kind"], tuple(inp["refit_from"]),
                            (inp["degree"], inp["interaction_only"], inp["include_bias"]), X)
